@@ -437,6 +437,9 @@ def iop(op, ty, a, b):
     if op in ('gt', 'ge'):
         op = {'gt': 'lt', 'ge': 'le'}[op]
         a, b = b, a
+    # (x << 1) >> 1 on an unsigned lane clears exactly the top bit
+    if op == 'shr' and not signed and is_const(b) and cbits(b) == 1 and a.op == 'shl:' + ty and is_const(a.args[1]) and cbits(a.args[1]) == 1 and size in (4, 8):
+        return lane_bitop('and', a.args[0], const(((1 << bits) - 1) >> 1, size), size)
     # unsigned x % 2^k == x & (2^k - 1), x / 2^k == x >> k  (exact for every value)
     if not signed and op in ('rem', 'div') and is_const(b) and not is_const(a):
         kb = cbits(b)
@@ -759,6 +762,10 @@ def lane_bitop(op, a, b, size):
             if x.op == 'signbits':
                 # xor(v, signbits(s)): flips sign of v where s negative -- keep symbolic
                 pass
+            # blend written with xor: f ^ (mask & (t ^ f)) == mask ? t : f
+            if y.op == 'ite' and is_const(y.args[2]) and cbits(y.args[2]) == 0 and y.args[1].op == 'bxor' and x in y.args[1].args:
+                t_ = y.args[1].args[0] if y.args[1].args[1] is x else y.args[1].args[1]
+                return ite(y.args[0], t_, x)
     if op in ('and', 'or', 'xor') and b < a:
         a, b = b, a
     return mk('b' + op, a, b)
